@@ -410,6 +410,7 @@ func ParseMemberExpr(p *ParserZH) syntax.Expression {
 		if match, tk := p.tryConsume(TypeIdentifier); match {
 			id := newID(p, tk)
 			p.setStmtCurrentLine(id, tk)
+			p.setStmtCurrentLine(memberExpr, tk)
 			memberExpr.MemberType = syntax.MemberID
 			memberExpr.MemberID = id
 
@@ -1395,9 +1396,11 @@ func ParseClassDeclareStmt(p *ParserZH) *syntax.ClassDeclareStmt {
 		switch tk.Type {
 		case TypeFuncW:
 			stmt := ParseFunctionDeclareStmt(p)
+			p.setStmtCurrentLine(stmt, tk)
 			cdStmt.MethodList = append(cdStmt.MethodList, stmt)
 		case TypeGetterW:
 			stmt := ParseGetterDeclareStmt(p)
+			p.setStmtCurrentLine(stmt, tk)
 			cdStmt.GetterList = append(cdStmt.GetterList, stmt)
 		case TypeObjThisW:
 			stmt := parsePropertyDeclareStmt(p)
